@@ -64,7 +64,13 @@ MUTANTS = [
     {'name': 'begin_not_consumed_keeps_looping', 'edits': [(P, "                else if (state->flags == BINSON_STATE_IN_OBJ_EXPECTING_FIELD) {\n                    state->flags = BINSON_STATE_IN_OBJ_EXPECTING_VALUE;\n                }\n                break;", "                else if (state->flags == BINSON_STATE_IN_OBJ_EXPECTING_FIELD) {\n                    state->flags = BINSON_STATE_IN_OBJ_EXPECTING_VALUE;\n                }\n                else {\n                    proceed = true;\n                    continue;\n                }\n                break;")],
      'expect': {'C16': '_advance_parsing'}},
     {'name': 'rewind_too_short', 'edits': [(P, "parser->buffer_used -= bytes_consumed;", "parser->buffer_used -= bytes_consumed - 1;")],
-     'expect': {'C01': None}},
+     'expect': {'C01': None, 'C07': 'cursor'}},
+    {'name': 'rewind_flags_not_restored', 'edits': [(P, "                            parser->buffer_used -= bytes_consumed;\n                            state->flags = BINSON_STATE_IN_OBJ_EXPECTING_FIELD;\n", "                            parser->buffer_used -= bytes_consumed;\n")],
+     'expect': {'C07': 'expecting a field'}},
+    {'name': 'bool_getter_no_type_gate', 'edits': [(P, "        (NULL != parser->current_state) &&\n        (BINSON_TYPE_BOOLEAN == parser->current_state->current_type)) {", "        (NULL != parser->current_state)) {")],
+     'expect': {'C03': 'binson_parser_get_boolean'}},
+    {'name': 'name_span_shifted', 'edits': [(P, "                state->current_name.bptr = consumed.bptr;\n                state->current_name.bsize = consumed.bsize;", "                state->current_name.bptr = consumed.bptr + (consumed.bsize > 0 ? 1 : 0);\n                state->current_name.bsize = consumed.bsize - (consumed.bsize > 0 ? 1 : 0);")],
+     'expect': {'C03': 'span recorded', 'C01': None}},
     # behaviour-preserving edits: every check must stay silent
     {'name': 'silent_boundary_reordered', 'edits': [(P, '''    size_t c = a + b;
 
